@@ -815,6 +815,16 @@ def _cf_forall(eng, st, pos, kw):
     return [(st, BoolV(z3.ForAll([k], z3.Implies(rng, body))))]
 
 
+def _cf_forall2(eng, st, pos, kw):
+    """forall2(n, lambda a, b: P)  ==  for all ints 0 <= a < b < n: P   (one two-variable quantifier)."""
+    n, fn = pos
+    a = z3.FreshConst(z3.IntSort(), "qa")
+    b = z3.FreshConst(z3.IntSort(), "qb")
+    res = eng.call(st, fn, [IntV(a), IntV(b)], {})
+    body = eng.results_to_bool(st, res)
+    return [(st, BoolV(z3.ForAll([a, b], z3.Implies(And(0 <= a, a < b, b < box(n, K_INT)), body))))]
+
+
 def _cf_exists(eng, st, pos, kw):
     lo, hi, fn = pos
     k = z3.FreshConst(z3.IntSort(), "q")
@@ -979,6 +989,7 @@ CONTRACT_FUNCS = {
     "implies": FuncV(_cf_implies, "implies"),
     "iff": FuncV(_cf_iff, "iff"),
     "forall": FuncV(_cf_forall, "forall"),
+    "forall2": FuncV(_cf_forall2, "forall2"),
     "exists": FuncV(_cf_exists, "exists"),
     "forall_str": FuncV(_cf_forall_str, "forall_str"),
     "ite": FuncV(_cf_ite, "ite"),
